@@ -395,7 +395,7 @@ def run(tier, seed, rep):
                     'harness/geo_sym.py FastCtx (per-path branch-decision cache, cross-path cache of identical UNSAT queries, '
                     'qfnra-nlsat front end with fall-back to the stock solver)']
     rep.extra['configurations'] = len(ATMS) * len(CONVS) * len(ORDERS) * len(ANGLES) * len(MAPS)
-    rep.extra['invalid_models_rechecked'] = sum(r.get('stats', {}).get('invalid_models', 0) for r in rep.results)
+    rep.extra['invalid_models_rechecked'] = sum(r.get('stats', {}).get('invalid_models', 0) + r.get('stats', {}).get('invalid_models_rechecked', 0) for r in rep.results)
     rep.process_failures()
     return rep.finish(rule='one obligation = one (label, z3 formula) per column / block / connection on one path '
                            '(pc AND NOT formula must be unsat); structural list comparisons are concrete per path '
